@@ -26,7 +26,7 @@ fi
 mut_out=$(go test -vet=off -count=1 $pkg 2>&1); mut_rc=$?
 rm -f "$dest"
 suite_out=$(go test -vet=off -count=1 ./... 2>&1); suite_rc=$?
-git diff > "$WT/.rebased.diff"
+git diff HEAD > "$WT/.rebased.diff"
 echo "$ID: clean_rc=$clean_rc mutant_demo_rc=$mut_rc suite_rc=$suite_rc"
 if [ $clean_rc -eq 0 ] && [ $mut_rc -ne 0 ] && [ $suite_rc -eq 0 ]; then
   mkdir -p /verif/seeded/$ID
